@@ -31,13 +31,15 @@ Section Spec.
   Variable Msg : Type.
   Variable dec : list Z -> option Msg.
 
-  (** a frame followed by anything *)
-  Lemma spec_Unmarshal_frame e32 ver body rest t m :
-    zlen ver <= 16 -> no_trailing_nul ver = true -> zlen body < 2 ^ 63 ->
+  (** a frame followed by anything; whatever the version bytes, it is read back
+      without its trailing NULs *)
+  Lemma spec_Unmarshal_frame_anyver e32 ver body rest t m :
+    zlen ver <= 16 -> zlen body < 2 ^ 63 ->
     dec body = Some m -> term_ok t body rest ->
-    spec_Unmarshal dec e32 (frame ver body ++ rest) t = (32 + zlen body, ver, None, Some m, rest).
+    spec_Unmarshal dec e32 (frame ver body ++ rest) t
+      = (32 + zlen body, strip_nul ver, None, Some m, rest).
   Proof.
-    intros Hv Hnul Hlen Hdec Hterm. pose proof (zlen_nonneg body) as Hb0.
+    intros Hv Hlen Hdec Hterm. pose proof (zlen_nonneg body) as Hb0.
     pose proof (zlen_nonneg rest) as Hr0.
     unfold frame. rewrite <- app_assoc.
     destruct (frame_header_fields ver (zlen body) (body ++ rest) Hv) as (F16 & Fh & Fb & F32); [lia|].
@@ -61,7 +63,17 @@ Section Spec.
       - congruence.
       - rewrite He in Hne. discriminate. }
     rewrite firstn_zlen_app, skipn_zlen_app, Hdec.
-    unfold pad16. rewrite strip_nul_pad by assumption. reflexivity.
+    unfold pad16. rewrite strip_nul_pad_gen. reflexivity.
+  Qed.
+
+  Lemma spec_Unmarshal_frame e32 ver body rest t m :
+    zlen ver <= 16 -> no_trailing_nul ver = true -> zlen body < 2 ^ 63 ->
+    dec body = Some m -> term_ok t body rest ->
+    spec_Unmarshal dec e32 (frame ver body ++ rest) t = (32 + zlen body, ver, None, Some m, rest).
+  Proof.
+    intros Hv Hnul Hlen Hdec Hterm.
+    rewrite spec_Unmarshal_frame_anyver with (m := m) by assumption.
+    rewrite strip_nul_id by assumption. reflexivity.
   Qed.
 
   (** a strict prefix of a frame *)
@@ -210,6 +222,30 @@ Section Codec.
     { rewrite Hcs. apply bytes_ok_app. split; [apply frame_bytes|]; assumption. }
     rewrite Hcs in HS.
     rewrite (spec_Unmarshal_frame Msg dec EEOF ver (enc m) rest t m) in HS; try assumption.
+    - inversion HS; subst. exists cs'. rewrite HU. auto.
+    - rewrite Hcs, zlen_app, zlen_frame in Hlen by assumption. pose proof (zlen_nonneg rest). lia.
+  Qed.
+
+  (** the same for a version that may end in NULs (or be all NULs): what comes back
+      is the version without its trailing NULs *)
+  Theorem Unmarshal_frame_anyver m ver rest cs t fuel :
+    dec (enc m) = Some m ->
+    zlen ver <= 16 ->
+    bytes_ok ver -> bytes_ok (enc m) -> bytes_ok rest ->
+    chunks_ok cs -> concat cs = frame ver (enc m) ++ rest -> zlen (concat cs) < 2 ^ 63 ->
+    term_ok t (enc m) rest ->
+    (length (concat cs) + 2 <= fuel)%nat ->
+    exists cs',
+      Unmarshal dec cread grow fuel (cs, t)
+        = Some (32 + zlen (enc m), strip_nul ver, None, Some m, (cs', t))
+      /\ concat cs' = rest /\ chunks_ok cs'.
+  Proof.
+    intros Hdec Hv Bv Bb Br Hok Hcs Hlen Hterm Hfuel.
+    destruct (Unmarshal_spec Msg dec grow Hgrow cs t fuel Hok) as (n & v & e & mm & cs' & HU & Hok' & HS);
+      try assumption.
+    { rewrite Hcs. apply bytes_ok_app. split; [apply frame_bytes|]; assumption. }
+    rewrite Hcs in HS.
+    rewrite (spec_Unmarshal_frame_anyver Msg dec EEOF ver (enc m) rest t m) in HS; try assumption.
     - inversion HS; subst. exists cs'. rewrite HU. auto.
     - rewrite Hcs, zlen_app, zlen_frame in Hlen by assumption. pose proof (zlen_nonneg rest). lia.
   Qed.
